@@ -91,6 +91,35 @@ def run(F, R, tier):
         same = tables["WireServer"] == tables["GAPlugin"] == tables["Imds"]
         R.check(same, "C11.R1", "C11.R1:siblings-agree", "-", "WireServer, GAPlugin and Imds have identical mode tables (modulo the elevation guard)")
 
+    # helper contract: how the host's mode string becomes the mode the table above switches on
+    from lib import contracts
+    fs = R.anchor("<azure_proxy_agent::proxy::authorization_rules::AuthorizationMode as std::str::FromStr>::from_str", "C11.R1")
+    if fs:
+        tb, nomatch, lowered = contracts.string_match_table(F, mir.Body(fs, F), "AuthorizationMode")
+        want = {"disabled": {"Disabled"}, "audit": {"Audit"}, "enforce": {"Enforce"}}
+        R.check(tb == want and nomatch == {"Err"} and lowered, "C11.R1", "C11.R1:AuthorizationMode::from_str:table", "%s:%s" % (fs["file"], fs["line"]),
+                "mode strings (case-folded) map to disabled->Disabled, audit->Audit, enforce->Enforce, anything else is an error",
+                "AuthorizationMode::from_str maps %s; no match -> %s; case-folded: %s" % ({k: sorted(v) for k, v in tb.items()}, sorted(nomatch), lowered))
+    fai = F.fns.get(AP + "proxy::authorization_rules::ComputedAuthorizationItem::from_authorization_item")
+    if fai:
+        Bf = mir.Body(fai, F)
+        R.touched(fai["id"])
+        # the mode stored in the computed item is from_str(item.mode), or Disabled when that fails
+        modes = set()
+        for bi, fl in contracts.agg_fields(Bf, "ComputedAuthorizationItem"):
+            if "mode" in fl:
+                for o in Bf.origins(fl["mode"]):
+                    if o[0] == "call" and q.ends(o[1], "from_str"):
+                        src = Bf.origins(Bf.blocks[o[2]]["term"]["args"][0])
+                        modes.add("from_str(%s)" % "|".join(sorted(".".join((str(x[1]),) + tuple(x[2])) if x[0] == "param" else x[0] for x in src)))
+                    elif o[0] == "agg":
+                        modes.add(str(o[1]).rsplit("::", 1)[-1])
+                    else:
+                        modes.add(str(o[0]))
+        R.check(modes == {"from_str(authorization_item.mode)", "Disabled"}, "C11.R1", "C11.R1:from_authorization_item:mode", "%s:%s" % (fai["file"], fai["line"]),
+                "ComputedAuthorizationItem.mode = AuthorizationMode::from_str(item.mode), Disabled if the string is invalid",
+                "ComputedAuthorizationItem.mode is built from %s" % sorted(modes))
+
     # ------------------------------------------------------------------ R2
     hnr = R.anchor(HNR, "C11.R2")
     if hnr:
@@ -362,3 +391,9 @@ def run(F, R, tier):
                                 "failedAuthenticateSummary of the aggregate status = get_all_failed_connection_summary()",
                                 "failedAuthenticateSummary origins: %s" % sorted(map(str, org)))
         R.check(found, "C11.R5", "C11.R5:publication-site", "-", "the aggregate status is built with a failedAuthenticateSummary field")
+
+    # hand-written Clone of the published record
+    from lib import contracts as _ct
+    for im in _ct.handwritten_impls(F, "clone::Clone", ("proxy_agent_shared",)):
+        if im["self_ty"].endswith("ProxyConnectionSummary"):
+            _ct.faithful_clone(F, R, "C11.R5", im)
